@@ -71,7 +71,10 @@ var paths = []string{"", "/", "/publicKey", "/publicKey/0", "/publicKey/0/id", "
 	// or no services (docs[1]) they must not come back as keys or services
 	"/verificationMethod", "/verificationMethod/0", "/services", "/publicKeys", "/authentication",
 	// member names with line breaks and other blanks below a protected member (a pattern matcher may stop at a line break)
-	"/publicKey/0/a\nb", "/service/0/a\nb", "/publicKey/0/\n", "/publicKey/0/a\rb", "/service/0/a\u2028b", "/publicKey/0/ "}
+	"/publicKey/0/a\nb", "/service/0/a\nb", "/publicKey/0/\n", "/publicKey/0/a\rb", "/service/0/a\u2028b", "/publicKey/0/ ",
+	// reference tokens that a file-path cleaner would resolve ("..", ".", the empty token): in a JSON pointer they are ordinary member
+	// names, and docs[0] has members with exactly these names
+	"/notes/../publicKey", "/notes/../service/0", "/./service", "/notes/.//publicKey/0"}
 
 // (the last value is a whole document of its own: written at the root or anywhere else it must not bring keys or services with it)
 var values = []string{`{"x":1}`, `"s"`, `[{"id":"evil","type":"T"}]`,
@@ -102,7 +105,7 @@ func build() setup {
 	k1 := ops.PubKeyJSON("k1", keys.New("P-256", 40), `["authentication"]`)
 	k2 := ops.PubKeyJSON("k2", keys.New("Ed25519", 40), `["assertionMethod"]`)
 	docs := []string{
-		`{"publicKey":[` + k1 + `,` + k2 + `],"service":[{"id":"s1","type":"T","serviceEndpoint":"https://s1.example/"}],"other":{"publicKey":[1],"n":2},"alsoKnownAs":["https://aka.example/"],"publicKeyX":"sibling","servic":"sibling","services":"sibling"}`,
+		`{"publicKey":[` + k1 + `,` + k2 + `],"service":[{"id":"s1","type":"T","serviceEndpoint":"https://s1.example/"}],"other":{"publicKey":[1],"n":2},"alsoKnownAs":["https://aka.example/"],"publicKeyX":"sibling","servic":"sibling","services":"sibling","notes":{"..":{"publicKey":"a note","service":["another note"]},".":{"":{"publicKey":["note"]}}},".":{"service":"dot"},"":{"publicKey":["empty name"]}}`,
 		`{"publicKey":[` + k1 + `],"other":[{"id":"o"}]}`,
 		`{"service":[{"id":"s1","type":"T","serviceEndpoint":["https://a.example/","https://b.example/"]}],"zz":[{"id":"pre"}]}`,
 	}
@@ -270,7 +273,7 @@ func Worker(args []string) {
 }
 
 func Run(r *core.Run) {
-	r.Rule = "3 documents x RFC 6902 patch lists over 6 operation kinds x 32 path pointers x 32 from pointers x 4 values: all single operations; pairs (copy|move ; any operation at or below that operation's target or source, or moving/copying from there) in quick, all ordered pairs in thorough; " +
+	r.Rule = "3 documents x RFC 6902 patch lists over 6 operation kinds x 49 path pointers x 49 from pointers x 4 values: all single operations; pairs (copy|move ; any operation at or below that operation's target or source, or moving/copying from there) in quick, all ordered pairs in thorough; " +
 		"oracle: validated and applied => publicKey and service members deep-equal to the input's; distinct = patch lists that validate and apply (counted); non-trivial = the list validates and applies"
 	r.Assumptions = []string{"operations whose from is a token prefix of their path (copy/move into own subtree, in the RFC 6902 library's reading of the pointers) are left to C19 (they can kill the process)",
 		"a panic inside ApplyPatches counts as not applied here (C19 judges it); the enumeration runs in child processes so that a fatal error of the code under test costs one item, not the check"}
